@@ -274,6 +274,7 @@ def amen_divide(a, b, nswp = 22, x0 = None, eps = 1e-10,rmax = 100, max_full = 5
                 else:
                     # search for a rank such that offeres small enough residuum
                     # TODO: binary search?
+                    _scan = {}
                     r = 0
                     for r in range(u.shape[1]-1,0,-1):
                         solution = u[:,:r] @ tn.diag(s[:r]) @ v[:r,:] # solution has the same size
@@ -285,6 +286,7 @@ def amen_divide(a, b, nswp = 22, x0 = None, eps = 1e-10,rmax = 100, max_full = 5
                             res = tn.linalg.norm(Op.matvec(solution)-rhs)/norm_rhs
                         if res > max(real_tol*damp,res_new):
                             break
+                        if _verif.enabled(): _scan[r] = float(res)
                     r += 1
 
                     r = min([r,tn.numel(s),rmax[k+1]])
@@ -329,7 +331,10 @@ def amen_divide(a, b, nswp = 22, x0 = None, eps = 1e-10,rmax = 100, max_full = 5
                     v = v @ Rmat.t()
                  
                 r = u.shape[1]
-                _verif.emit('amen_step', swp=int(swp), k=int(k), rows=int(u.shape[0]), cols=int(rx[k+1]), use_full=bool(use_full), r_tr=_r_tr, r_add=_r_add, r_out=int(r), last=bool(last))
+                _x = {}
+                if _verif.enabled():
+                    _x = dict(crit=float(res_old), res_new=float(res_new), res_tr=float(_scan.get(_r_tr, -1.0)) if trunc_norm != 'fro' else -1.0, eps=float(eps))
+                _verif.emit('amen_step', swp=int(swp), k=int(k), rows=int(u.shape[0]), cols=int(rx[k+1]), use_full=bool(use_full), r_tr=_r_tr, r_add=_r_add, r_out=int(r), last=bool(last), **_x)
                 # print(u.shape,v.shape,x_cores[k+1].shape)
                 v = tn.einsum('ji,jkl->ikl',v,x_cores[k+1])
                 # remove norm correction
@@ -379,6 +384,7 @@ def amen_divide(a, b, nswp = 22, x0 = None, eps = 1e-10,rmax = 100, max_full = 5
             print('Time ',tme_sweep)
               
                 
+        _verif.emit('amen_sweep', swp=int(swp), crit=float(max_res), eps=float(eps), last=bool(last))
         if last:
             break
 
